@@ -135,6 +135,12 @@ FlushSkipped ==
   /\ sub' = "await"
   /\ UNCHANGED <<phase, step, live, timers, conns, joined, coordOk, left, reachAtLeave, raised, waits, inBackoff, rebDone, hasAssign>>
 
+\* ... or it dies WHILE stop() waits for the flush (the wait is on {flush task, sender task}, first to finish)
+SenderDies ==
+  /\ phase = "closing" /\ Cur = "sender" /\ sub = "flush" /\ live["sender"] > 0
+  /\ live' = [live EXCEPT !["sender"] = 0]
+  /\ UNCHANGED <<phase, step, sub, timers, conns, joined, coordOk, left, reachAtLeave, raised, waits, inBackoff, rebDone, hasAssign>>
+
 \* ---- every component: cancel its tasks, AWAIT them, swallow their CancelledError ---------------
 CloseComp ==
   /\ phase = "closing" /\ sub = "await"
@@ -156,7 +162,7 @@ CloseFetchRaises ==
   /\ raised' = TRUE /\ phase' = "stopped"
   /\ UNCHANGED <<step, sub, timers, conns, joined, coordOk, left, reachAtLeave, waits, inBackoff, rebDone, hasAssign>>
 
-Next == Churn \/ Env \/ StopCall \/ LastCommit \/ RebalanceCommit \/ Leave \/ Flush \/ FlushSkipped \/ CloseComp \/ CloseFetchRaises
+Next == Churn \/ Env \/ StopCall \/ LastCommit \/ RebalanceCommit \/ Leave \/ Flush \/ FlushSkipped \/ SenderDies \/ CloseComp \/ CloseFetchRaises
 Spec == Init /\ [][Next]_vars
 LiveSpec == Spec /\ WF_vars(LastCommit) /\ WF_vars(Leave) /\ WF_vars(Flush) /\ WF_vars(FlushSkipped) /\ WF_vars(CloseComp) /\ WF_vars(CloseFetchRaises)
 
